@@ -369,7 +369,17 @@ def diagram_rule_incomplete(ctx):
         p2.write_text("@startuml\n[a] --> [b]\n")
         p3 = d / "nostart.puml"
         p3.write_text("[a] --> [b]\n@enduml\n")
-        for p in (p1, p2, p3):
+        # "without start/end tags" is also: the tags in the wrong order, a second diagram opened and never closed after a complete
+        # one is still a file WITH a tag pair (not listed here), the two tags with nothing between them, misspelt tags
+        more = {"reversed.puml": "@enduml\n[a] --> [b]\n@startuml\n", "reversed_inline.puml": "@enduml [a] --> [b] @startuml",
+                "adjacent.puml": "@startuml@enduml", "misspelt_end.puml": "@startuml\n[a] --> [b]\n@endulm\n", "misspelt_start.puml": "@startulm\n[a] --> [b]\n@enduml\n",
+                "only_end_twice.puml": "@enduml\n[a] --> [b]\n@enduml\n", "only_start_twice.puml": "@startuml\n[a] --> [b]\n@startuml\n"}
+        extra_paths = []
+        for nm, txt in more.items():
+            q = d / nm
+            q.write_text(txt)
+            extra_paths.append(q)
+        for p in (p1, p2, p3, *extra_paths):
             for mode in (True, False):
                 cases.append((f"{p.name} should_only={mode}", lambda p=p, mode=mode: DiagramRule(should_only_rule=mode).from_file(p).with_base_module("r").assert_applies(arch)))
         # a diagram that names a component absent from the architecture (a typo): every declaration / arrow form, the unknown
